@@ -23,6 +23,13 @@
    may or may not be visited.  Visit events therefore read one key each, HandleMessage events may come in
    between, and Pass2 only requires that the keys present at Pass1 have been visited.
 
+   Tick reads the keys in one step although myMemberViewSorted is a Range as well: keys are never deleted, so the
+   list it yields lies between the view when the Range began and the view when it ended, and ticks, like the
+   Range of intersectedView, belong to the one Synchronize goroutine -- the announced lists of a member stay totally
+   ordered by inclusion, which is all the proofs use (Global.v, I_chain).  Tick is disabled while a Range of
+   intersectedView is in progress for the same reason (same goroutine).  Handle events are never disabled: the topic
+   stays registered after Synchronize has returned.
+
    Variant flags (false = the pinned upstream code):
    fix_onepass  upstream computed the own view in a SECOND Range (myMemberViewSorted) after the first one had
                 collected the announced views; a HandleMessage landing in between adds a key whose announced view
